@@ -45,6 +45,16 @@ def cases(tier, seed):
         c["name"] = "%04d-%s%d-%s-%s%s" % (k, "up" if up else "down", ratio, mode, order, "-rev" if c["reverse"] else "")
         c["cost"] = 1
         out.append(c)
+    # the converter as crossbar.get_port(data_width=...) inserts it, on the real controller + reference DRAM (address shift,
+    # class M traffic only: ascending streams)
+    for k in range(8 if tier == "quick" else 48):
+        r = random.Random("C07/core/%d/%s/%d" % (seed, tier, k))
+        c = dict(kind="core", clock_domain="sys", psys=10, pusr=10, phsys=0, phusr=0, cmd_buffer_depth=r.choice([4, 8]),
+                 nops=r.randint(120, 220), cls="streams", data_width=[8, 16, 64, 128][k % 4], refresh=bool(k % 2), gap_scale=r.choice([0.1, 0.5]),
+                 master_mode=r.choice(["fifo", "strict"]), reverse=bool(k % 8 >= 4), seed="C07/core/%d/%d" % (seed, k))
+        c["name"] = "core%03d-dw%d%s" % (k, c["data_width"], "-rev" if c["reverse"] else "")
+        c["cost"] = 3000
+        out.append(c)
     return out
 
 
@@ -100,6 +110,13 @@ def first_nonmonotone(ops, ratio):
 
 
 def run_case(c):
+    if c.get("kind") == "core":
+        from .c08 import run_core_case
+        res = run_core_case(c)
+        for x in res.get("violations", []):
+            x["direction"] = "real-core"
+        res.setdefault("stats", {})["monotone_class"] = True
+        return res
     from .. import shim  # noqa
     from migen import Module
     from litedram.common import LiteDRAMNativePort
@@ -280,13 +297,15 @@ def aggregate(results, cases):
         for k in tot:
             tot[k] += (r.get("stats") or {}).get(k, 0) or 0
     by = {c["name"]: c for c in cases}
-    split = dict(up_class_M=0, up_class_U=0, down=0)
+    split = dict(up_class_M=0, up_class_U=0, down=0, real_core=0)
     for r in results:
         c = by.get(r["name"])
         st = r.get("stats") or {}
         if not c or not st:
             continue
-        if not c["up"]:
+        if c.get("kind") == "core":
+            split["real_core"] += 1
+        elif not c["up"]:
             split["down"] += 1
         elif st.get("monotone_class"):
             split["up_class_M"] += 1
